@@ -39,7 +39,7 @@ def is_pseudo(ins) -> bool:
 # ----------------------------------------------------------------------------------------------------------------
 # trailing trivia: nothing, blanks, and comments with content that must stay inert (quotes, colons, directives, #, unicode)
 COMMENTS = ["", "", "", " # c", "#c", "   # jal x0, 0", "  ", ' # say "hi"', " # x: .word 5", ' #"', " # it's", " ## twice # thrice", " # a, b(c) [1] +0x4",
-            " # é ü", " # .data", "\t# tab", " # lbl:"]
+            " # é ü", " # .data", "\t# tab", " # lbl:", " # don't", ' # 5" tall, it\'s', " # 'a' \"b\" 'c"]
 
 
 class Tape:
